@@ -317,6 +317,9 @@ func shapeMain(root, out string) error {
 		"hs_closes_conn": countCalls(body(wsh), "conn.Close") >= 3,
 		// the close callback of a server session always releases the session's reader and its wait group unit
 		"after_pump_releases": callbackReleases(body(wsh), "afterWritePump", "close", "s.serveWG.Done"),
+		// when the write pump of a server session has ended, start() closes the transport (closeConn), which is what lets a
+		// read pump holding a message go (the model's wp_leave sets cconn)
+		"start_closes_transport": hasCall(deferred(sst), "s.Close"),
 	}
 	b, _ := json.MarshalIndent(facts, "", " ")
 	if err := os.WriteFile(out, b, 0o644); err != nil {
